@@ -4,12 +4,13 @@
 set -u
 id=$1; n=$2; shift 2
 export GOFLAGS=-mod=mod GOPROXY=off
-W=/tmp/mut/$id; O=$W/OUT
+MUTROOT=${MUTROOT:-/tmp/mut2}; OFFSET=${OFFSET:-2}
+W=$MUTROOT/$id; O=$W/OUT
 [ -f "$O/patch$n.diff" ] || { echo "no $O/patch$n.diff"; exit 3; }
 meta=$O/meta$n.json
 place=$(python3 -c "import json;print(json.load(open('$meta')).get('demo_place','.'))")
-cmd=$(python3 -c "import json;print(json.load(open('$meta')).get('demo_cmd','').replace('<repo>','/tmp/mut/$id').replace('<REPO>','/tmp/mut/$id').replace('\$REPO','/tmp/mut/$id'))")
-echo "== $id-$n: $(python3 -c "import json;print(json.load(open('$meta')).get('summary',''))")"
+cmd=$(python3 -c "import json;print(json.load(open('$meta')).get('demo_cmd','').replace('<repo>','$W').replace('<REPO>','$W'))")
+echo "== $id-$((n+OFFSET)): $(python3 -c "import json;print(json.load(open('$meta')).get('summary',''))")"
 echo "   needs: $(python3 -c "import json;print(json.load(open('$meta')).get('needs',''))")"
 echo "   demo_place=$place demo_cmd=$cmd"
 cd $W || exit 3
@@ -32,7 +33,7 @@ git checkout -q -- . ; git clean -fdq -e OUT >/dev/null 2>&1
 echo "   demo without change: rc=$a (want 0); suite with change: rc=$s (want 0); demo with change: rc=$b (want !=0)"
 if [ $a -ne 0 ] || [ $s -ne 0 ] || [ $b -eq 0 ]; then echo "   NOT CONFIRMED"; for f in a s b; do tail -n 5 /tmp/ingest.$$.$f | cut -c1-200; done; rm -f /tmp/ingest.$$.*; exit 4; fi
 rm -f /tmp/ingest.$$.*
-D=/verif/seeded/$id-$n; mkdir -p $D
+D=/verif/seeded/$id-$((n+OFFSET)); mkdir -p $D
 cp "$O/patch$n.diff" $D/patch.diff
 if [ -d "$demo" ]; then cp -r "$demo" $D/; else cp "$demo" $D/; fi
 python3 - "$meta" "$D/meta.json" "$place" "$cmd" <<'PY'
